@@ -4,7 +4,10 @@
  * vertex positions and lowered only by a successful IsFinite() or by MakeEmpty().  SortGeometry's precondition
  * (taken from sort.cpp SortVerts: NaN marks a vertex as removed) is that no unchecked user data is present. */
 #ifdef SPEC_CONTRACTS
-int ghost_unchecked, ghost_made_empty, ghost_status, ghost_sorted_unchecked;
+int ghost_unchecked, ghost_made_empty, ghost_status, ghost_sorted_unchecked, ghost_bbox_unchecked;
+/* CalculateBBox (properties.cpp) empties the object with Error::NoError when the box is not finite ("decimated out of
+ * existence"): on unchecked user data that turns an error into an empty-but-valid solid, so it has the same precondition */
+void stub_CalculateBBox(void) { if (ghost_unchecked) ghost_bbox_unchecked = 1; }
 void stub_MakeEmpty(struct Manifold_Impl *self, int err) { ghost_made_empty = 1; ghost_status = err; ghost_unchecked = 0; }
 _Bool stub_IsFinite(void) { _Bool b = nondet_bool(); if (b) ghost_unchecked = 0; return b; }
 void stub_SortGeometry(void) { if (ghost_unchecked) ghost_sorted_unchecked = 1; }
@@ -15,10 +18,11 @@ void stub_SortGeometry(void) { if (ghost_unchecked) ghost_sorted_unchecked = 1; 
 void h_WarpBatch(void) {
   struct Manifold_Impl impl;
   struct std_function_opaque f;
-  ghost_unchecked = 0; ghost_made_empty = 0; ghost_status = -1; ghost_sorted_unchecked = 0;
+  ghost_unchecked = 0; ghost_made_empty = 0; ghost_status = -1; ghost_sorted_unchecked = 0; ghost_bbox_unchecked = 0;
   HARNESS_END;
   Impl_WarpBatch(&impl, f);
   __CPROVER_assert(!ghost_sorted_unchecked, "SortGeometry never runs on warped positions that have not passed IsFinite() (NaN would be taken for a tombstone)");
+  __CPROVER_assert(!ghost_bbox_unchecked, "CalculateBBox never runs on warped positions that have not passed IsFinite() (it would empty the object with Status NoError: an error silently turned into an empty-but-valid solid)");
   __CPROVER_assert(!ghost_unchecked, "on return the warped positions were checked finite or the object was emptied");
   __CPROVER_assert(IMPLIES(ghost_made_empty, ghost_status == ENUM_Manifold_Error_NonFiniteVertex), "a non-finite warp result is reported as NonFiniteVertex");
 }
